@@ -128,6 +128,30 @@ fn check_duration(&(secs, nanos): &(u64, u32)) -> Verdict {
     Verdict::pass(secs >= (1 << 32) || nanos == 0 || nanos == 999_999_999 || nanos % 1000 != 0)
 }
 
+/// `Timestamp::duration_since` through the tagged enum the sampling loop uses:
+/// two OS timestamps `span` apart (any offset from "now") differ by exactly
+/// `span` in picoseconds; two TSC timestamps agree with `TscTimestamp`'s own
+/// conversion, i.e. with the exact floor (checked separately in `tsc_floor`).
+fn check_timestamp(&(off_s, off_ns, secs, nanos, a, b, f): &(u64, u32, u64, u32, u64, u64, u64)) -> Verdict {
+    let span = Duration::new(secs, nanos);
+    let expected = span.as_nanos() * 1000;
+    let got = match crate::engine::catch(|| pure::os_timestamp_duration_since(Duration::new(off_s, off_ns), span)) {
+        Ok(Some(g)) => g,
+        Ok(None) => return Verdict::pass(false),
+        Err(e) => return Verdict::fail("os-timestamp-panic", format!("OS timestamps {secs}s {nanos}ns apart -> panic {e}")),
+    };
+    vensure!(got == expected, "os-timestamp-wrong", "OS timestamps {secs}s {nanos}ns apart (offset {off_s}s {off_ns}ns) -> {got} ps, expected {expected}");
+    let (earlier, later) = (a.min(b), a.max(b));
+    let want = ((later - earlier) as u128 * PICOS) / f as u128;
+    let got = match crate::engine::catch(|| pure::tsc_timestamp_duration_since(later, earlier, f)) {
+        Ok(g) => g,
+        Err(e) => return Verdict::fail("tsc-timestamp-panic", format!("TSC timestamps {earlier} -> {later} at {f} Hz -> panic {e}")),
+    };
+    vensure!(got == want, "tsc-timestamp-wrong", "TSC timestamps {earlier} -> {later} at {f} Hz -> {got} ps, the exact floor is {want}");
+    classify(if secs == 0 { "span < 1 s" } else if secs < 1000 { "1 s <= span < 1000 s" } else { "span >= 1000 s" });
+    Verdict::pass(secs >= 1 && nanos != 0)
+}
+
 #[derive(Clone, Debug, Serialize, Deserialize)]
 struct PrecisionCase {
     step: u64,
@@ -241,6 +265,22 @@ fn groups(g: &mut Groups) {
             prop_oneof![0u32..1_000_000_000, Just(0u32), Just(999_999_999u32), Just(1u32), (0u32..1_000_000).prop_map(|x| x * 1000)],
         ),
         check_duration,
+    );
+
+    g.prop(
+        "timestamp",
+        400_000,
+        20_000_000,
+        || (
+            prop_oneof![Just(0u64), 0u64..100_000, 0u64..(1 << 33)],
+            0u32..1_000_000_000,
+            prop_oneof![3 => Just(0u64), 3 => 1u64..=5, 2 => 0u64..100_000, 1 => 0u64..(1 << 33)],
+            prop_oneof![0u32..1_000_000_000, Just(0u32), Just(999_999_999u32), Just(1u32)],
+            edge_u64(),
+            edge_u64(),
+            freq(),
+        ),
+        check_timestamp,
     );
 
     g.enumerate(
